@@ -8,7 +8,7 @@
    is a pair of K.  key_ok K (Proofs/IndexProofs.v): K has the shape ParseKey produces, its __name__ value has
    no '{' (C15 finding reserved-name-brace) and no tag NAME contains ':' (values may). *)
 From Pyro Require Import Model.Base Model.Key Model.Dimension Model.Labels Model.Index.
-From Pyro Require Import Proofs.BcmpProofs Proofs.KeyProofs Proofs.DimensionProofs Proofs.IndexProofs.
+From Pyro Require Import Proofs.BcmpProofs Proofs.KeyProofs Proofs.DimensionProofs Proofs.IndexProofs Proofs.IndexSumProofs.
 From Coq Require Import Permutation.
 
 (* --- Intersection: any number of sorted duplicate-free inputs of any length, whatever permutation the sort returns --- *)
@@ -128,3 +128,33 @@ Example C07_labels_nonvacuous :
   get_values [117] (ix_labels st) = [[104;116;116;112;58;47;47;120;47;121;46;122]] /\
   get_keys (ix_labels st) = [name_key; [117]] /\ get_values name_key (ix_labels st) = [[97;112;112]].
 Proof. vm_compute. auto. Qed.
+
+(* --- order independence: of Intersection's arguments (Go's random map iteration) and of the tags in the selector text --- *)
+Theorem intersection_any_argument_order : forall input input', Forall ssorted input -> Permutation input input' ->
+  intersection input = intersection input'.
+Proof. exact intersection_perm. Qed.
+Print Assumptions intersection_any_argument_order.
+
+Theorem C07_selector_text_order : forall n n' l l' st,
+  name_ok n -> name_ok n' -> Forall tag_ok l -> Forall tag_ok l' ->
+  trim n = trim n' -> NoDup (map fst (KeyProofs.trim_tags l)) -> Permutation (KeyProofs.trim_tags l) (KeyProofs.trim_tags l') ->
+  ix_select_series (parse (render n l)) st = ix_select_series (parse (render n' l')) st /\
+  ix_get (parse (render n l)) st = ix_get (parse (render n' l')) st.
+Proof. exact selector_text_order. Qed.
+Print Assumptions C07_selector_text_order.
+
+(* --- nothing invented: with ':'-free tag names a listed value was ingested under that name --- *)
+Theorem C07_labels_exact : forall ops k v,
+  (forall K s c, In (IPut K s c) ops -> Forall (fun kv => has c_colon (fst kv) = false) K) ->
+  has c_colon k = false ->
+  (In v (get_values k (ix_labels (ix_run ops))) <-> exists K s c, In (IPut K s c) ops /\ In (k, v) K).
+Proof. exact labels_exact. Qed.
+Print Assumptions C07_labels_exact.
+
+(* --- at the level of uploads: what a query returns is the sum, stack by stack, of the uploads still live
+   (spec_get: computed from the history alone - every upload whose series matches the selector and was not
+   deleted since, once) --- the same function the correspondence check compares Storage.Get with *)
+Theorem C07_get_exact : forall ops Q, Forall op_ok ops -> key_ok Q ->
+  ix_get Q (ix_run ops) = Some (spec_get Q ops).
+Proof. exact get_exact. Qed.
+Print Assumptions C07_get_exact.
